@@ -1068,7 +1068,7 @@ impl Cluster {
             out.push(Choice::Prune);
         }
         if self.n_queue_events < p.queue_events && p.journal {
-            for k in 0..3 {
+            for k in 0..4 {
                 if k == 0 || !self.queues_live.is_empty() {
                     out.push(Choice::QueueEvent { kind: k });
                 }
@@ -1582,7 +1582,8 @@ impl Cluster {
                         json!({"kind": "queued", "q": q, "a": a})
                     }
                     _ => {
-                        let q = *self.queues_live.iter().next().unwrap();
+                        // kind 2 removes the oldest live queue, kind 3 the newest (so that a lower id survives a higher one)
+                        let q = if *kind == 2 { *self.queues_live.iter().next().unwrap() } else { *self.queues_live.iter().next_back().unwrap() };
                         self.queues_live.remove(&q);
                         ev.on_allocation_queue_removed(q);
                         json!({"kind": "removed", "q": q})
